@@ -120,13 +120,16 @@ def machine(on_end, expired):
                     have = complex(sympy.sympify(pj).subs(vals))
                     require(abs(have - want) <= 1e-9, lambda: f"probability {pj} is not the squared magnitude of the entry {xj}")
             mass = _numeric_mass(got)
+            # "the object still satisfies this": the entries it holds now would be accepted by the constructor
             if any(_is_sym(x) for x in got):
-                require(mass <= 1 + 1e-6, lambda: f"numeric part of a symbolic wavefunction has mass {mass} > 1")
+                require(mass <= 1 + 2e-5, lambda: f"numeric part of a symbolic wavefunction has mass {mass} > 1")
                 require(bool(self.wf.free_symbols), "free_symbols empty for a symbolic wavefunction")
+                must(lambda: Wavefunction(list(got)), f"creating a wavefunction from the entries the object holds now ({got})")
             else:
-                require(abs(mass - 1) <= 1e-6, lambda: f"numeric wavefunction has total probability {mass}")
+                require(abs(mass - 1) <= 2e-5, lambda: f"numeric wavefunction has total probability {mass}")
+                must(lambda: Wavefunction(np.array(got, dtype=complex)), f"creating a wavefunction from the entries the object holds now (total probability {mass!r})")
                 p = np.ravel(np.asarray(must(self.wf.get_probabilities, "get_probabilities"), dtype=float))
-                require(np.allclose(p, [abs(x) ** 2 for x in got], rtol=0, atol=1e-12) and abs(p.sum() - 1) <= 1e-6,
+                require(np.allclose(p, [abs(x) ** 2 for x in got], rtol=0, atol=1e-12) and abs(p.sum() - mass) <= 1e-9,
                         lambda: f"probabilities {p} are not the squared magnitudes")
 
         # -- rules
@@ -250,6 +253,30 @@ def machine(on_end, expired):
                 self.model[k] = complex(val)
                 self._note("ok")
             self.step("phase", {"i": i, "angle": angle}, go)
+
+        @rule(i=st.integers(0, 7), d=st.sampled_from([4e-6, 4e-6, -4e-6, 2e-6, 3e-6, -3e-6, 8e-7]))
+        def nudge(self, i, d):
+            """An entry rescaled by 1+d: a change of the total probability that is tiny, possibly within the library's
+            tolerance. Whether it is accepted is the library's decision; either way the object must stay valid
+            (checked by the invariant: its entries are accepted by the constructor) and a refusal must change nothing."""
+            def go():
+                if any(_is_sym(x) for x in self.model):
+                    return
+                N = len(self.model)
+                k = max(range(N), key=lambda j: (abs(self.model[(j + i) % N]) > 0.3, -j))
+                k = (k + i) % N
+                val = self.model[k] * (1 + d)
+                before = _read(self.wf)
+                try:
+                    self.wf[k] = val
+                except Exception:  # noqa: BLE001 - refused: fine, but then nothing may have changed
+                    self._unchanged(before, "refused small rescaling")
+                    self.info["classes"].add("nudge_refused")
+                    return
+                self.model[k] = complex(val)
+                self.info["classes"].add("nudge_accepted")
+                self._note("ok")
+            self.step("nudge", {"i": i, "d": d}, go)
 
         @rule(i=st.integers(0, 7), mag=st.sampled_from([1.5, 2.5, -3.0, 10.0]))
         def break_(self, i, mag):
